@@ -2,6 +2,8 @@ package gen
 
 import (
 	"pgregory.net/rapid"
+
+	"verif/internal/xmpgen"
 )
 
 // Input is a (mostly) well-formed file of some kind plus its addressable sites.
@@ -89,8 +91,31 @@ func GenInput(rt *rapid.T, xmpPacket func(*rapid.T) []byte) Input {
 		s := rapid.SampledFrom(c).Draw(rt, "in.sample")
 		return Input{Kind: kindOfSample(s.Name, s.Data), Data: s.Data, Sites: sitesOfSample(s)}
 	}
-	if k == 9 && xmpPacket != nil {
-		return Input{Kind: "xmp", Data: xmpPacket(rt)}
+	if k == 9 {
+		if xmpPacket == nil {
+			xmpPacket = xmpgen.RandomPacket
+		}
+		if rapid.IntRange(0, 2).Draw(rt, "in.xmpstandalone") > 0 {
+			return Input{Kind: "xmp", Data: xmpPacket(rt)}
+		}
+		// the packet inside a JPEG APP1 segment, next to an Exif segment
+		f := GenExif(rt, Options{Unbuffered: true, MaxForeign: 2})
+		pkt := xmpPacket(rt)
+		if len(pkt) > 60000 {
+			pkt = pkt[:60000]
+		}
+		segs := []Seg{{Marker: 0xE1, Payload: append([]byte(XMPPrefix), pkt...), Kind: "xmp"}}
+		if len(f.Enc.II) < 60000 {
+			e := Seg{Marker: 0xE1, Payload: append([]byte(ExifPrefix), f.Enc.II...), Kind: "exif"}
+			if rapid.Bool().Draw(rt, "in.exiffirst") {
+				segs = append([]Seg{e}, segs...)
+			} else {
+				segs = append(segs, e)
+			}
+		}
+		segs = append(segs, DQT())
+		d := JPEGStream(segs, JPEGTail(rt))
+		return Input{Kind: "jpeg", Data: d, Sites: DiscoverSites(d), Exif: f}
 	}
 	f := GenExif(rt, Options{Unbuffered: true, MaxForeign: 4})
 	payload := f.Enc.II
